@@ -377,3 +377,21 @@ CHECKS["C11"] = dict(
         dict(name="sockets", test="TestHostileSockets", kind="rapid", checks={"quick": 40, "thorough": 1500}, shards=16, timeout={"quick": 900, "thorough": 3400}, gomaxprocs=4, crash_is_violation=True),
     ],
 )
+
+CHECKS["C05"] = dict(
+    pkg="c05", level="exploration",
+    engine="tcpsim: real TCP processor through proc.New, scripted clients and backends over loopback",
+    rule=("rapid-generated cases: 1..16 concurrent connections through ONE proxy (shared 16 KiB buffer pool), each with a client->backend and a "
+          "backend->client stream (length 0, 1, 16383..16385, 32768/9, 65536, 0..70000, up to 1 MiB, thorough 16 MiB; every byte is a "
+          "function of connection id, direction and position), a write plan (sizes 1..65536 cycled, gaps 0..2 ms), reader sizes 1..65536, and "
+          "a close script: both sides half-close after sending; client half-closes first and the backend sends 0..70000 more bytes only "
+          "after it has seen the client's EOF; the mirror image; one side finishing only after the other's EOF. Oracle: each side receives "
+          "exactly the peer's bytes (length and content, position-checked) and sees EOF only after all of them; data sent after the peer's "
+          "half-close still arrives; nothing from another connection's pattern appears. Non-trivial: both directions exceed one 16 KiB "
+          "buffer, or data is sent after the peer's half-close. Distinct by canonical JSON."),
+    assumptions=["the idle time-out (10 min) is larger than every generated gap: the idle cut-off itself is not exercised",
+                 "abortive closes (RST with unread data) are not generated: TCP itself then drops data"],
+    parts=[
+        dict(name="relay", test="TestRelay", kind="rapid", checks={"quick": 20, "thorough": 1200}, shards=16, timeout={"quick": 900, "thorough": 3400}, shrinktime="60s", gomaxprocs=4),
+    ],
+)
